@@ -236,6 +236,7 @@ def run(tier: str) -> int:
     for l, im in zip(lines, impl):
         ck.add(l, im, nontrivial=True, tag=l.split(" ", 1)[0])
     __import__('srctie_c18').add_src_c18(ck, ['hash_deterministic', 'head_content'])   # source tie: op srcc18 (SHA-1 = Model/Sha1.lean)
+    ck.extra_cov["protocol_per_instance_scenarios"] = __import__("flexhist").oracle(ck)
     ck.correspond(holds=False)
     if ck.driver is None:
         return ck.finish()
